@@ -102,7 +102,9 @@ impl Robot {
             // a bare solver: another configuration (other limits or none, or a description a fraction of a millimetre
             // off) answers the query, then the real configuration is assigned to the same object
             let other_limits = match &self.limits {
-                Some(_) if r.gen_bool(0.5) => None,
+                Some(_) if r.gen_bool(0.35) => None,
+                // (limits that limit nothing: from = to on every joint)
+                Some(_) if r.gen_bool(0.4) => { let v: Joints = std::array::from_fn(|_| r.gen_range(-3.0..3.0)); Some((v, v, 0.0)) }
                 _ => Some((std::array::from_fn(|i| q[i] - r.gen_range(0.2..2.5)), std::array::from_fn(|i| q[i] + r.gen_range(0.2..2.5)), [0.0, 1.0, 0.5][r.gen_range(0..3)])),
             };
             let mut other_p = self.p;
